@@ -63,10 +63,21 @@ def _free(draw):
             cf[draw(st.sampled_from(rest))] = draw(st.sampled_from([1, -1, 2]))
         if all(v in ci + co for v in cf):
             c = dict(c, g=c["g"] + [[cf, float(gens.dot(cf, w) + draw(st.sampled_from(gens.SLACKS)))]])
-    rel = draw(st.sampled_from(["implies", "implies", "independent"]))
+    rel = draw(st.sampled_from(["implies", "implies", "independent", "conflict"]))
     if rel == "implies":
         extra = [t for t in c1["a"] if set(t[0]) <= set(ci)]
         c = dict(c, a=c["a"] + extra if len(extra) == len(c1["a"]) else c["a"])
+    elif rel == "conflict":
+        # the two sets of assumptions contradict each other on a shared input: no quotient exists (the call has to refuse)
+        sh = [v for v in i1 if v in ci]
+        if sh:
+            v = draw(st.sampled_from(sh))
+            k = float(draw(st.integers(-2, 2)))
+            sg = draw(st.sampled_from([1.0, -1.0]))
+            c = dict(c, a=c["a"] + [[{v: sg}, sg * k]])
+            c1 = dict(c1, a=c1["a"] + [[{v: -sg}, -sg * k - draw(st.sampled_from([1.0, 0.5, 2.0]))]])
+        else:
+            rel = "independent"
     return {"mode": "free", "c": c, "c1": c1, "rel": rel, "addl_pick": draw(st.lists(st.booleans(), min_size=6, max_size=6)),
             "simplify": draw(st.sampled_from([True, True, False])), "order": draw(gens.order_s())}
 
